@@ -201,6 +201,31 @@ def c04 (pa ps : Option Rat) (sw z : Option Rat) : Verdict :=
           "magnitude of the derived result outside the rounding bound"
   | _, _, _ => .skip "non-finite operand"
 
+/-- C04, two-step chain ("multiplying by a value and then dividing by it, or the reverse, returns
+the original magnitude"): the conclusion of `C04.mul_then_div_mag` (`isMul = true`: `(x·y)/y`) and
+`C04.div_then_mul_mag` (`isMul = false`: `(x/y)·y`), evaluated on implementation outputs.
+`m0` = exact reference-unit magnitude `a·s_a` of the original value, `pa1`, `ps1` = exact
+product/quotient of the operand amounts and of the operand scales of the FIRST step, `sw1` = scale of
+the unit the intermediate carries, `z1` = its amount, `bs` = `b·s_b` (amount times unit scale of the
+value multiplied and divided by), `pa2`, `ps2` = exact amounts/scales combination of the SECOND step
+(computed from the intermediate the implementation returned), `sw2`, `z2` = unit scale and amount of
+the final result. -/
+def c04rt (isMul : Bool) (m0 pa1 ps1 sw1 bs pa2 ps2 sw2 z2 : Option Rat) : Verdict :=
+  match m0, pa1, ps1, sw1, bs, pa2, ps2, sw2 with
+  | some m0, some pa1, some ps1, some sw1, some bs, some pa2, some ps2, some sw2 =>
+    if sw1 ≤ 0 || sw2 ≤ 0 then .skip "non-positive scale"
+    else if bs == 0 then .skip "zero factor"
+    else if !(derivedSafe M pa1 ps1 sw1) || !(derivedSafe M pa2 ps2 sw2) then .skip "out of range"
+    else match z2 with
+      | none => .fail "finite in-range operands gave a non-finite result after the round trip"
+      | some z2 =>
+        let b1 := derivedBound M pa1 ps1 sw1
+        let b2 := derivedBound M pa2 ps2 sw2
+        let total := if isMul then b2 + b1 / ratAbs bs else b2 + b1 * ratAbs bs
+        check (ratAbs (z2 * sw2 - m0) ≤ total)
+          "multiplying and then dividing by a value (or the reverse) does not return the original magnitude"
+  | _, _, _, _, _, _, _, _ => .skip "non-finite operand"
+
 /-- C05 (tolerant form evaluated on implementation outputs): the unit `w` of a fitted
 result with reference-unit magnitude `mag` is eligible, no larger eligible unit fits
 below `mag` (by more than `tol`), and unless `w` is the smallest eligible unit its own
